@@ -158,8 +158,9 @@ def wrapper_forwarding(chk, repo):
         def getitem(I_, a, kw):
             k0 = a[0]
             parts = list(k0.elts) if isinstance(k0, TupS) else ([Const(x) for x in k0.v] if isinstance(k0, Const) and isinstance(k0.v, tuple) else None)
-            if parts is None or not all(isinstance(p_, Const) and isinstance(p_.v, (int, slice)) and not isinstance(p_.v, bool) for p_ in parts) or len(parts) != 2:
+            if parts is None or not all(isinstance(p_, Const) and isinstance(p_.v, (int, slice)) and not isinstance(p_.v, bool) for p_ in parts) or len(parts) > 2:
                 raise ShapeError(f"the array is indexed with {k0!r:.60}")
+            parts = parts + [Const(slice(None))] * (2 - len(parts))  # an axis that is not indexed is taken whole
             seen.append(tuple(p_.v for p_ in parts))
             try:
                 return block(sel(parts[0].v, N), sel(parts[1].v, M))
@@ -195,6 +196,12 @@ def wrapper_forwarding(chk, repo):
                 # numpy: ascontiguousarray returns an array of at least one dimension
                 return Obj("Block", OrderedDict(rows=x.fields["rows"], cols=x.fields["cols"], ndim=Const(1), shape=Const((1,))))
             return x
+        def empty(I_, a, kw):
+            shp = a[0] if a else kw.get("shape")
+            dims = [x.v for x in shp.elts] if isinstance(shp, (TupS, ListLit)) and all(isinstance(x, Const) and isinstance(x.v, int) for x in shp.elts) else (list(shp.v) if isinstance(shp, Const) and isinstance(shp.v, (tuple, list)) else None)
+            if dims is None:
+                raise ShapeError(f"np.empty({shp!r:.40})")
+            return Obj("Block", OrderedDict(rows=Const(("fresh", ())), cols=Const(("fresh", ())), ndim=Const(len(dims)), shape=Const(tuple(dims))))
         lock = Obj("Lock", OrderedDict())
         lock.fields["__enter__"] = Fn("py", impl=lambda I_, a, k: lock, name="__enter__")
         lock.fields["__exit__"] = Fn("py", impl=lambda I_, a, k: Const(None), name="__exit__")
@@ -204,6 +211,7 @@ def wrapper_forwarding(chk, repo):
         ident = Fn("py", impl=lambda I_, a, k: a[0], name="np.asarray")
         I.module_scope(xm).vars["np"] = Obj("numpy", OrderedDict(concatenate=Fn("py", impl=concatenate, name="np.concatenate"), vstack=Fn("py", impl=concatenate, name="np.vstack"),
                                                                     ascontiguousarray=Fn("py", impl=at_least_1d, name="np.ascontiguousarray"), asarray=ident, asanyarray=ident,
+                                                                    empty=Fn("py", impl=empty, name="np.empty"), zeros=Fn("py", impl=empty, name="np.zeros"),
                                                                     dtype=Fn("py", impl=lambda I_, a, k: a[0] if a else Const(None), name="np.dtype")))
         kshape = TupS([Const(x) for x in key])
         try:
@@ -220,6 +228,14 @@ def wrapper_forwarding(chk, repo):
         want_rows, want_cols = sel(key[0], N), sel(key[1], M)
         want_ndim = (want_rows[0] == "seq") + (want_cols[0] == "seq")
         got_rows, got_cols, got_ndim = out.fields["rows"].v, out.fields["cols"].v, out.fields["ndim"].v
+        want_shape = tuple(len(x[1]) for x in (want_rows, want_cols) if x[0] == "seq")
+        if got_rows[0] == "fresh":
+            # a block made without reading (np.empty): right exactly when the selection is empty and the shape is the selection's
+            ok = 0 in want_shape and out.fields["shape"].v == want_shape
+            chk.require(ok, "C02-X6", where, f"key {key!r}: an empty selection is answered with an empty block of the selection's shape {want_shape}",
+                        f"xarray hands the backend the key {key!r}; the wrapper answers with a fresh block of shape {out.fields['shape'].v} where the selection has shape {want_shape}"
+                        f" ({want_ndim} dimension(s): an integer indexer drops its axis)", key="wrapper:key-forwarding", sample={"key": repr(key)})
+            continue
         ok = got_rows == want_rows and got_cols == want_cols and got_ndim == want_ndim
         chk.require(ok, "C02-X6", where, f"key {key!r}: the selection asked for is the selection returned",
                     f"xarray hands the backend the key {key!r}; the array is indexed {len(seen)} time(s) with {seen[:4]!r} and the wrapper returns rows {got_rows[1]!r}, columns {got_cols[1]!r}, "
